@@ -4,6 +4,8 @@ encoder output and foreign inputs; the model is evaluated by vm_compute with the
 primitives supplied as finite tables filled from CPython."""
 from __future__ import annotations
 
+import collections
+import collections.abc
 import copy
 import dataclasses
 import enum
@@ -211,11 +213,14 @@ def walk_py(v, depth=0):
     if dataclasses.is_dataclass(v) and not isinstance(v, type):
         for f in dataclasses.fields(v):
             yield from walk_py(getattr(v, f.name), depth + 1)
-    elif isinstance(v, dict):
+    elif isinstance(v, collections.ChainMap):
+        for m in v.maps:
+            yield from walk_py(m, depth + 1)
+    elif isinstance(v, collections.abc.Mapping):       # dict and its subclasses, MappingProxyType
         for k, x in v.items():
             yield from walk_py(k, depth + 1)
             yield from walk_py(x, depth + 1)
-    elif isinstance(v, (list, tuple, set, frozenset)):
+    elif isinstance(v, (list, tuple, set, frozenset, collections.deque)):
         for x in v:
             yield from walk_py(x, depth + 1)
 
